@@ -20,7 +20,7 @@ func init() { core.Register(c13{}) }
 func (c13) ID() string    { return "C13" }
 func (c13) Level() string { return "exploration" }
 func (c13) Rule() string {
-	return "seeded starts with 0..10 runners (unordered, ordered, priority-ordered, priority-only, lazy, runner+closer, with their own dependencies on other components and on each other) among 0..20 other components (eager, lazy, cyclic), arbitrary Order values incl. ties; in half of the cases one or two runners are made to fail. Offline checker over the per-start event log (logical clock shared by Init/AfterPropertiesSet methods, the observing post-processor and Run methods): successful start => every runner has exactly one run event, every run event follows the last lifecycle event of every component created in the start, run events obey the ordering contract; failing runner => Run returns an error, the last run event is a failing runner, nothing ran twice, and every runner that did not run could legally be sorted after the failing one. non-trivial = >= 2 runners of >= 2 classes, or a failing runner that is not last; distinct = canonical scenario signature; zero-size runners of different types and orders take part; runners whose Order() is settled during their own initialization; a component contributed programmatically by a factory post-processor is initialised before any runner; runner errors of a field-less value type or of an application error type with a Cause() method and no cause, or context.Canceled (plain / wrapped); a component collecting runners by method name; runners exposed through decorators of a few shared decorator types (a post-processor wraps each after its initialisation); one runner replaced by a non-runner object (the others still run); ownRegistry family; a catalogue factory post-processor listing definitions before the scan; promotedRoles family (ordering roles promoted from embedded structs)"
+	return "seeded starts with 0..10 runners (unordered, ordered, priority-ordered, priority-only, lazy, runner+closer, with their own dependencies on other components and on each other) among 0..20 other components (eager, lazy, cyclic), arbitrary Order values incl. ties; in half of the cases one or two runners are made to fail. Offline checker over the per-start event log (logical clock shared by Init/AfterPropertiesSet methods, the observing post-processor and Run methods): successful start => every runner has exactly one run event, every run event follows the last lifecycle event of every component created in the start, run events obey the ordering contract; failing runner => Run returns an error, the last run event is a failing runner, nothing ran twice, and every runner that did not run could legally be sorted after the failing one. non-trivial = >= 2 runners of >= 2 classes, or a failing runner that is not last; distinct = canonical scenario signature; zero-size runners of different types and orders take part; runners whose Order() is settled during their own initialization; a component contributed programmatically by a factory post-processor is initialised before any runner; runner errors of a field-less value type or of an application error type with a Cause() method and no cause, or context.Canceled (plain / wrapped); a component collecting runners by method name; runners exposed through decorators of a few shared decorator types (a post-processor wraps each after its initialisation); one runner replaced by a non-runner object (the others still run); ownRegistry family; a catalogue factory post-processor listing definitions before the scan; promotedRoles family (ordering roles promoted from embedded structs); AfterPropertiesSet faults on runners that also have Init"
 }
 func (c13) Assumptions() []string {
 	return []string{"with Order ties the position of the failing runner is not unique; the set of runners that ran must be a prefix of some contract-respecting sequence"}
